@@ -189,7 +189,7 @@ def random_piece(rng, c):
     bars = []
     for b in range(nb):
         if rng.random() < .35:
-            sig = rng.choice([(4, 4), (3, 4), (2, 4), (6, 8), (2, 2), (5, 4), (7, 8), (3, 8), (12, 8)])
+            sig = rng.choice([(4, 4), (3, 4), (2, 4), (6, 8), (2, 2), (5, 4), (7, 8), (3, 8), (12, 8), (2, 8), (3, 8), (1, 4)])
             sigs.append([t, sig[0], sig[1]])
         ln = c["ppqn"] * 4 * sig[0] // sig[1]
         bars.append((t, t + ln))
@@ -204,6 +204,11 @@ def random_piece(rng, c):
         for _ in range(rng.randint(0, 8)):
             s = 2 * rng.randint(0, max(0, end // 2 - 1))
             val = rng.choice(c["values"])
+            if rng.random() < .25:          # a note starting on a bar line; when a value equals the bar length it fills the bar
+                b0, b1 = rng.choice(bars)
+                s = b0
+                if (b1 - b0) in c["values"]:
+                    val = b1 - b0
             p = rng.randint(c["pitLo"], min(c["pitHi"], c["pitLo"] + 3))
             if any(not (s + val <= a or b <= s) for a, b in busy.get(p, [])):
                 continue
